@@ -1,4 +1,8 @@
 ---- MODULE MC_Clock1 ----
 EXTENDS AquaClock
+\* three seasons of a 15-day crop planted on 1 March, start three days before the first planting date
 cWindows == { [start |-> <<2000,2,27>>, end |-> <<2002,6,30>>, plant |-> <<3,1>>, harv |-> <<>>, maturity |-> 15, thermal |-> FALSE, off |-> o, die |-> d] : o \in BOOLEAN, d \in BOOLEAN }
+\* quick instance: the same window without crop death, plus a one-season window in which the crop may die or mature early (thermal)
+cWindowsQ == { [start |-> <<2000,2,27>>, end |-> <<2002,6,30>>, plant |-> <<3,1>>, harv |-> <<>>, maturity |-> 15, thermal |-> FALSE, off |-> o, die |-> FALSE] : o \in BOOLEAN }
+              \cup { [start |-> <<1999,12,20>>, end |-> <<2001,2,10>>, plant |-> <<12,25>>, harv |-> h, maturity |-> 15, thermal |-> t, off |-> o, die |-> TRUE] : o \in BOOLEAN, t \in BOOLEAN, h \in {<<>>, <<1,5>>} }
 ====
